@@ -485,6 +485,22 @@ def _deref_scan(A, f, starts, var, depth):
                         guarded = True
                 if not guarded:
                     return deref
+        # the value (or what a pass-through call makes of it) bound to
+        # another local: follow that local from here on
+        if n.kind == 'stmt' and isinstance(n.ast, ast.Assign) and depth < 4 \
+                and len(n.ast.targets) == 1 and isinstance(n.ast.targets[0], ast.Name) \
+                and n.ast.targets[0].id != var \
+                and _maybe_none(A, f, n.ast.value, var, depth):
+            guarded = False
+            for t in tests:
+                lab = norm(t.ast) != '%s is None' % var
+                if n.id not in reachable_without_edges(cfg, cfg.entry, {(t.id, lab)}):
+                    guarded = True
+            if not guarded:
+                d = _deref_scan(A, f, [m for m, _l in n.succs],
+                                n.ast.targets[0].id, depth + 1)
+                if d:
+                    return 'bound to `%s`, which is %s' % (n.ast.targets[0].id, d)
         # tuple unpacking of the value
         if n.kind == 'stmt' and isinstance(n.ast, ast.Assign) and \
                 isinstance(n.ast.targets[0], (ast.Tuple, ast.List)) and \
